@@ -311,7 +311,7 @@ func (d *badgerNodeDB) Finalize(roots []node.Root) error { // nolint: gocyclo
 	rootIt := tx.NewIterator(badger.IteratorOptions{Prefix: rootsPrefix})
 	defer rootIt.Close()
 
-	var removeMetaKeys [][]byte
+	var removeMetaKeys, removeRootKeys [][]byte
 	finalizedSeqNos := make(map[byte]uint16)
 	maybeLoneNodes := make(map[byte]map[string]struct{})
 	notLoneNodes := make(map[byte]map[string]struct{})
@@ -391,6 +391,9 @@ func (d *badgerNodeDB) Finalize(roots []node.Root) error { // nolint: gocyclo
 
 				maybeLoneNodes[rht][string(un.Key)] = struct{}{}
 			}
+
+			// Remove the root node of the non-finalized root (at the end, together with other removals).
+			removeRootKeys = append(removeRootKeys, rootIt.Item().KeyCopy(nil))
 
 			// Remove write logs for the non-finalized root.
 			if !d.discardWriteLogs {
@@ -475,6 +478,14 @@ func (d *badgerNodeDB) Finalize(roots []node.Root) error { // nolint: gocyclo
 			if err := batch.Delete(finalizedNodeKeyFmt.Encode(rht, []byte(k))); err != nil {
 				return fmt.Errorf("mkvs/pathbadger: failed to delete lone node: %w", err)
 			}
+		}
+	}
+
+	// Remove root nodes of non-finalized roots so they are no longer reported as existing. This
+	// happens after all lone nodes have been removed, so in case we fail a retry still sees them.
+	for _, key := range removeRootKeys {
+		if err := batchMeta.DeleteAt(key, versionToTs(version)); err != nil {
+			return fmt.Errorf("mkvs/pathbadger: failed to delete root node: %w", err)
 		}
 	}
 
